@@ -214,7 +214,11 @@ def run_body(ctx, b, regs0, link):
             fr.regs.append(run_body(ctx, ins["b"], [], fr))
         elif op == "ckpt":
             args = [val(fr, r) for r in ins["a"]]
-            fr.regs.append(checkpoint(lambda *ys, ins=ins, fr=fr: run_body(ctx, ins["b"], list(ys), fr))(*args))
+            if len(args) >= 2 and not isbox(args[-1]) and ctx.variant % 2 == 1:
+                # a non-differentiated trailing argument passed by keyword (with a different default): it must reach the recomputation too
+                fr.regs.append(checkpoint(lambda *ys, last=1.0, ins=ins, fr=fr: run_body(ctx, ins["b"], list(ys) + [last], fr))(*args[:-1], last=args[-1]))
+            else:
+                fr.regs.append(checkpoint(lambda *ys, ins=ins, fr=fr: run_body(ctx, ins["b"], list(ys), fr))(*args))
         elif op == "if":
             c = val(fr, ins["c"])
             pos = c > 0
@@ -261,9 +265,27 @@ def run_thread(ctx, th):
         return {"k": "error", "type": type(ex).__name__, "msg": str(ex)[:200]}
 
 
+def registries():
+    """the process-global tables that differentiation calls must never alter (C19)"""
+    from autograd.core import primitive_vjps, primitive_jvps, VSpace
+    from autograd.tracer import notrace_primitives, Box
+    return {"vjps": {id(k): id(v) for k, v in primitive_vjps.items()}, "jvps": {id(k): id(v) for k, v in primitive_jvps.items()},
+            "notrace": frozenset((k.__name__, frozenset(map(id, v))) for k, v in notrace_primitives.items()),
+            "boxes": {id(k): id(v) for k, v in Box.type_mappings.items()}, "vspaces": {id(k): id(v) for k, v in VSpace.mappings.items()}}
+
+
+def registries_ok(before, after):
+    """nothing removed or rebound; new rule-table entries only for primitives created meanwhile (autograd.checkpoint creates one)"""
+    for t in ("vjps", "jvps"):
+        if any(after[t].get(k) != v for k, v in before[t].items()):
+            return False
+    return before["notrace"] == after["notrace"] and before["boxes"] == after["boxes"] and before["vspaces"] == after["vspaces"]
+
+
 def run_case(case):
     prog = case["prog"]
     out = {"id": case["id"], "prog": prog}
+    reg0 = registries() if not prog.get("utable") else None
     with warnings.catch_warnings():
         warnings.simplefilter("error" if prog.get("warnerr") else "ignore")
         top0 = trace_stack.top
@@ -278,6 +300,7 @@ def run_case(case):
             out["obs"], out["ids"] = obs, ids
             out["sched"] = case["schedule"]
         out["top_drift"] = trace_stack.top - top0
+    out["reg_ok"] = bool(reg0 is None or registries_ok(reg0, registries()))
     return out
 
 
